@@ -434,6 +434,42 @@ def overlong_cases(ctx, res):
             res.oracle_failures.append({"input": inp, "what": "Client.list(raw_command=%r) raised %s for an over-long listing line (not ValueError)" % (kind, o[1]), "signature": "C19:list-%s-raises-%s" % (kind, o[1])})
 
 
+def custom_parser_cases(ctx, res):
+    """a line parser of one's own in the chain (`parse_list_line_custom`), tried first or last: whatever it raises of the
+    classes the chain contains for the built-in parsers, a line nobody can parse is still reported as ValueError - and a
+    line it does parse is parsed by it in either position when the built-in ones reject it"""
+    import pathlib
+
+    import aioftp
+
+    junk = [b"?rw-r--r-- what is this\r\n", b"\r\n", b"-rw-r--r-- 1 none none x Jan  1  2001 f\r\n", b"total 12\r\n", b"\xff\xfe broken\r\n"]
+    raises = {"ValueError": ValueError("custom"), "KeyError": KeyError("type-letter"), "IndexError": IndexError("fields"), "accepts": None}
+    for cls_name, exc in raises.items():
+        for first in (True, False):
+            def custom(b, _exc=exc):
+                if _exc is not None:
+                    raise _exc
+                return pathlib.PurePosixPath("by-custom"), {"type": "file", "size": "0"}
+
+            client = aioftp.Client(parse_list_line_custom=custom, parse_list_line_custom_first=first)
+            for k, line in enumerate(junk):
+                res.cases += 1
+                res.count("family=custom-parser")
+                res.distinct.add(("custom-parser", cls_name, first, k))
+                inp = {"family": "custom-parser", "custom_raises": cls_name, "custom_first": first, "line": line.hex()}
+                try:
+                    got = client.parse_list_line(line)
+                    outcome = ("OK", str(got[0]))
+                except ValueError:
+                    outcome = ("ValueError",)
+                except BaseException as e:  # noqa
+                    outcome = ("EXC", type(e).__name__)
+                want = ("OK", "by-custom") if exc is None else ("ValueError",)
+                if outcome != want:
+                    res.oracle_failures.append({"input": inp, "what": "Client(parse_list_line_custom=<raises %s>, parse_list_line_custom_first=%s).parse_list_line(%r) -> %r, want %r" % (
+                        cls_name, first, line, outcome, want), "signature": "C19:custom-parser-in-the-chain:%s" % (outcome[1] if outcome[0] == "EXC" else outcome[0])})
+
+
 def stat_fallback_cases(ctx, res):
     """`Client.stat` on a server without MLST goes through a listing of the parent directory: a line of that listing
     that cannot be parsed is reported (ValueError) wherever it stands - before or AFTER the entry looked for - exactly as
@@ -518,6 +554,7 @@ def _run(ctx, with_model, n_list, n_text):
     res = Result()
     overlong_cases(ctx, res)
     stat_fallback_cases(ctx, res)
+    custom_parser_cases(ctx, res)
     listing = gen_listing_inputs(ctx, n_list)
     texts = gen_text_inputs(ctx, n_text)
     try:
